@@ -242,6 +242,18 @@ func c14PileImpl(c *Ctx) *RuleResult {
 			// condition node stands for the whole loop (it runs at least once when count > 0)
 			unlockLoops := map[ast.Node]bool{}
 			ast.Inspect(u.Decl.Body, func(m ast.Node) bool {
+				if rs, ok := m.(*ast.RangeStmt); ok {
+					has := false
+					ast.Inspect(rs.Body, func(k ast.Node) bool {
+						if isUnlock(k) {
+							has = true
+						}
+						return !has
+					})
+					if has {
+						unlockLoops[rs.X] = true
+					}
+				}
 				if fs, ok := m.(*ast.ForStmt); ok && fs.Cond != nil {
 					has := false
 					ast.Inspect(fs.Body, func(k ast.Node) bool {
